@@ -186,7 +186,20 @@ theorem C09_prepare_with_wrong_full_data_rejected :
 
 example : (validate ctx0 State.empty (inputAt prepare1 t0)).2 = .accept := by decide
 
+/-- non-vacuity of the clause theorems' hypotheses: an accepted proposal of the leader (slot 32000, round 1, committee of
+    four: operator 1) and an accepted decided message signed by a quorum -/
+example : (validate ctx0 State.empty (inputAt { prepare1 with mtype := 0, signers := [1], root := 5, fullData := some 5, justOk := true } t0)).2 = .accept := by decide
+example : (validate ctx0 State.empty (inputAt { prepare1 with mtype := 2, signers := [1, 2, 4], root := 5, fullData := some 5 } t0)).2 = .accept := by decide
+example : (validate ctx0 State.empty (inputAt { prepare1 with mtype := 0, signers := [2], root := 5, fullData := some 5, justOk := true } t0)).2
+    = .reject .SignerNotLeader := by decide
+
 /-! ## slot and round windows -/
+
+/-- the window theorems' side conditions hold for the test network and a clock five seconds into slot 32000 -/
+example : Cfg12 praterCfg := ⟨rfl, by decide, by decide, by decide⟩
+example : RealisticClock praterCfg (GoTime.unix t0) := ⟨by decide, by decide, by decide, by decide⟩
+example : curSlot praterCfg (GoTime.unix t0) = 32000 := by decide
+example : highestRoundSpec praterCfg 32000 (GoTime.unix t0) = 4 := by decide
 
 /-- SLOT WINDOW (consensus messages): on a 12-second-slot network and with the node's clock between genesis and the
     year 2242, an accepted consensus message is for a slot that has started (not after the clock's slot) and is at most
